@@ -8,6 +8,17 @@ package loadaware
 // usage/threshold table from the NodeMetric objects, the pod lists and the pool configuration and
 // checks every Evict call against the statement. See /verif/DESIGN.md section 4, C18.
 //
+// Oracle conventions (all from the statement, none from the implementation): "above the high
+// threshold" is strict; a node exactly on a low threshold counts as under it; an unschedulable node
+// cannot receive load; an eviction is accepted if EITHER the whole-node or the prod pass justifies
+// it (node over in that pass' running estimate, another node under that pass' low thresholds,
+// that pass' headroom positive); unmeasured rounds neither extend nor break an over-threshold
+// streak; only Evict calls are judged (an over-loaded node that is not relieved is counted as
+// converse_misses_*, never a verdict). Signature suffixes .../on-threshold-float-truncated,
+// .../pod-count-ignores-metricless-evictions, .../after-interrupted-streak and
+// .../after-qualified-streak are diagnostics computed from the inputs that name the identifying
+// fact of a violation; they do not change what is a violation.
+//
 // Causal rules of the generator (what the real system can produce):
 //   * a NodeMetric reports NodeUsage = SystemUsage + sum of PodsMetric usages (no host applications);
 //     all usages are whole milli-CPU / bytes and never exceed the node's allocatable;
@@ -974,14 +985,18 @@ func (w *c18World) checkRound(round int, pools []*c18PoolCfg) {
 			}
 			c.Fail(sig, "%s: the node's usage (measured at the start of the round minus the reported usage of the pods already evicted from it) is above no high threshold, neither whole-node nor prod\n%s", where, tab.dump())
 		}
-		if row.n.streak < tab.cfg.need {
+		if row.n.streak < tab.cfg.need && !row.n.truncOnThreshold && row.n.maxRunBefore >= tab.cfg.need {
+			// An earlier run WAS long enough ("has been so for the required consecutive rounds" was true
+			// when the anomaly opened); a measured not-over round lies between it and now. The API's
+			// LoadAnomalyCondition.ConsecutiveNormalities documents a hysteresis that keeps an opened
+			// anomaly open across such rounds, and the statement does not say when a qualified run
+			// expires. Counted, not a verdict (decision recorded in DESIGN.md, C18).
+			c.Count("anomaly_open_kept_across_not_over_round", 1)
+		} else if row.n.streak < tab.cfg.need {
 			sig := "C18/anomaly/short-streak"
 			switch {
 			case row.n.truncOnThreshold:
 				sig += "/on-threshold-float-truncated"
-			case row.n.maxRunBefore >= tab.cfg.need:
-				// an earlier run was long enough; a measured not-over round lies between it and now
-				sig += "/after-qualified-streak"
 			case row.n.overBeforeGap:
 				// no run was ever long enough: over-threshold rounds separated by not-over rounds add up
 				sig += "/after-interrupted-streak"
